@@ -85,6 +85,31 @@ def find_input(pid, verdict, repo, env, seed):
 def rerun(path, repo, env):
     rp = json.load(open(path))
     inp = rp.get("input")
+    wit = rp.get("witness")
+    obl = rp.get("obligation") or ""
+    if not inp and wit is not None and (obl.startswith("ground:") or obl.startswith("bounded:generator")):
+        # witness of a table hypothesis or of a generator run: evaluate the same thing again on the current tree
+        now = []
+        if obl.startswith("ground:"):
+            govc = os.path.join(VERIF, "bin", "govc")
+            r = subprocess.run([govc, "ground", "-check", obl.split(":", 1)[1], repo], env=env, capture_output=True, text=True)
+            try:
+                now = json.loads(r.stdout).get("witnesses") or []
+            except Exception:
+                print("could not re-evaluate:", (r.stdout + r.stderr)[:500])
+                return 1
+        else:
+            import genrun
+            now = genrun.run(repo, env) if obl == "bounded:generator" else genrun.run_configs(repo, env)[1]
+        same = [w for w in now if w == wit]
+        if not same and isinstance(wit, dict):
+            key = {k: wit[k] for k in ("configuration", "file") if k in wit}
+            same = [w for w in now if isinstance(w, dict) and key and all(w.get(k) == v for k, v in key.items())]
+        if same:
+            print("REPRODUCED:", json.dumps(same[0]))
+            return 1
+        print("not reproduced on the current tree")
+        return 0
     if not inp:
         print("replay file carries no concrete input (no-failing-input-found); obligation:", rp.get("obligation"))
         print(rp.get("solver_output", "")[:2000])
